@@ -59,8 +59,8 @@ package defs
 //@   loop 0 invariant c13_ptr: forall k int :: {ret[k]} 0 <= k && k < len(ret) && ret[k].Spec != Optional && ret[k].Type.T == T_pointer ==> ret[k].Type.V.T == T_struct
 //@   loop 0 invariant c13_nocopy: forall k int :: {ret[k]} 0 <= k && k < len(ret) && ret[k].Opts % 2 == 1 ==> tagOf(ret[k].Type) == T_string
 //@   loop 0 invariant c13_opts: forall k int :: {ret[k]} 0 <= k && k < len(ret) ==> ret[k].Opts == 0 || ret[k].Opts == 1
-//@   loop 1 invariant fv == 0 || fv == 1
-//@   loop 1 invariant fv == 1 ==> tagOf(pt) == T_string
+//@   loop 1 invariant c13_opts1: fv == 0 || fv == 1
+//@   loop 1 invariant c13_nocopy1: fv == 1 ==> tagOf(pt) == T_string
 //@   loop 0 invariant c12_complete: forall i0 int :: {$dst[i0]} 0 <= i0 && i0 < i && elig(vt, i0) ==> 0 <= $dst[i0] && $dst[i0] < len(ret) && $src[$dst[i0]] == i0
 
 // --- type annotations (types.go) -----------------------------------------------------------
